@@ -68,6 +68,10 @@ def cross_section(self: BaseRollPass.OutProfile) -> Polygon:
         raise ValueError(
             "Profile's width can not be larger than its contour lines." "May be caused by critical overfilling."
         )
+    if not cs.is_valid:
+        raise ValueError(
+            "The given dimensions yield a degenerate cross-section. May be caused by overfilling with closed gap."
+        )
     return cs
 
 
